@@ -71,6 +71,18 @@ def run(k: int) -> int:
 		return 0''',
 ]
 
+# programs whose imports form a cycle through the submitted module itself
+CYCLIC = [
+'''from __main__ import A
+class A:
+	n: int
+	def __init__(self) -> None:
+		self.n = 0
+def use_a(k: int) -> int:
+	a = A()
+	return a.n + k''',
+]
+
 # well-formed but ill-typed / unsupported programs
 ILL_TYPED = [
 'def f(k: int) -> int:\n\treturn undefined_name + k',
